@@ -1,11 +1,17 @@
 #!/usr/bin/env python3
-"""tools/adopt_seed.py <seed name under /tmp/seed/out> <PROP> <detected_by obligation(s), comma separated or 'none'> [note]
+"""tools/adopt_seed.py <seed name under /tmp/seed/out> <PROP> <detected_by obligation(s), comma separated or 'none'> [note] [dest name]
 Copies a confirmed seeded change into /verif/seeded/<name>/ (patch.diff, demo, meta.json)."""
 import json, os, shutil, sys
 name, prop, det = sys.argv[1:4]
 note = sys.argv[4] if len(sys.argv) > 4 else ""
 src = "/tmp/seed/out/" + name
-dst = "/verif/seeded/" + name
+if len(sys.argv) > 5:
+    dstname = sys.argv[5]
+else:      # next free number for that property
+    import glob
+    nums = [int(d.rsplit("_", 1)[1]) for d in glob.glob("/verif/seeded/%s_*" % prop) if d.rsplit("_", 1)[1].isdigit()]
+    dstname = "%s_%d" % (prop, max(nums + [0]) + 1)
+dst = "/verif/seeded/" + dstname
 conf = json.load(open(src + "/confirm.json"))
 assert conf.get("confirmed"), conf
 os.makedirs(dst, exist_ok=True)
@@ -17,6 +23,7 @@ meta = json.load(open(src + "/meta.json"))
 out = {
     "property": prop,
     "summary": meta.get("summary"),
+    "ran_by_author": meta.get("ran"),
     "needs_to_manifest": meta.get("needs_to_manifest"),
     "files_changed": meta.get("files_changed"),
     "author": "independent sub-agent given only the property text and a scratch worktree",
